@@ -201,3 +201,131 @@ Proof.
   - exact trim_line_lf.
   - exact space_ext_std.
 Qed.
+
+(* ------------------------------------------------------------------ *)
+(* 6. Per-type value formatting: what interfaceValueAsSqlString emits reads back as the same value. *)
+Lemma parse_digits_app a : forall b acc,
+  parse_digits (a ++ b) acc = match parse_digits a acc with Some x => parse_digits b x | None => None end.
+Proof.
+  induction a as [|c a IH]; intros b acc; [reflexivity|].
+  cbn [app parse_digits]. destruct ((48 <=? c) && (c <=? 57)); [apply IH | reflexivity].
+Qed.
+
+Lemma digit_char_ok d : d < 10 -> ((48 <=? 48 + d) && (48 + d <=? 57)) = true /\ 48 + d - 48 = d.
+Proof.
+  intros H. split; [|lia]. apply andb_true_iff. split; apply N.leb_le; lia.
+Qed.
+
+Lemma digits_parse fuel : forall n, n < 2 ^ N.of_nat fuel -> parse_digits (digits fuel n) 0 = Some n.
+Proof.
+  induction fuel as [|f IH]; intros n H.
+  - change (2 ^ N.of_nat 0) with 1 in H. assert (n = 0) by lia. subst. reflexivity.
+  - cbn [digits]. destruct (n <? 10) eqn:E.
+    + apply N.ltb_lt in E. cbn [parse_digits]. destruct (digit_char_ok n E) as [-> ->]. first [reflexivity | f_equal; lia].
+    + apply N.ltb_ge in E. rewrite parse_digits_app.
+      assert (Hq : n / 10 < 2 ^ N.of_nat f).
+      { rewrite Nat2N.inj_succ, N.pow_succ_r' in H. apply N.div_lt_upper_bound; [discriminate|].
+        assert (0 < 2 ^ N.of_nat f) by (apply N.neq_0_lt_0, N.pow_nonzero; discriminate). lia. }
+      rewrite (IH _ Hq). cbn [parse_digits].
+      assert (Hm : n mod 10 < 10) by (apply N.mod_lt; discriminate).
+      destruct (digit_char_ok _ Hm) as [-> ->]. f_equal.
+      symmetry. apply N.div_mod. discriminate.
+Qed.
+
+Lemma fmt_nat_parse n : parse_digits (fmt_nat n) 0 = Some n.
+Proof.
+  unfold fmt_nat. apply digits_parse. rewrite Nat2N.inj_succ, N2Nat.id.
+  destruct n as [|p]; [reflexivity|]. apply N.log2_spec. reflexivity.
+Qed.
+
+Lemma digits_head_range f n : exists c t, digits (S f) n = c :: t /\ 48 <= c /\ c <= 57.
+Proof.
+  revert n. induction f as [|f IH]; intros n.
+  - cbn [digits]. destruct (n <? 10) eqn:E.
+    + apply N.ltb_lt in E. exists (48 + n), []. split; [reflexivity|]. lia.
+    + pose proof (N.mod_lt n 10 ltac:(discriminate)) as Hm. exists (48 + n mod 10), []. split; [reflexivity|].
+      revert Hm. generalize (n mod 10). intros r Hm. lia.
+  - change (digits (S (S f)) n) with (if n <? 10 then [48 + n] else digits (S f) (n / 10) ++ [48 + n mod 10]).
+    destruct (n <? 10) eqn:E.
+    + apply N.ltb_lt in E. exists (48 + n), []. split; [reflexivity|]. lia.
+    + destruct (IH (n / 10)) as [c [t [-> Hc]]]. exists c, (t ++ [48 + n mod 10]). split; [reflexivity | exact Hc].
+Qed.
+
+Lemma digits_head f n : exists c t, digits (S f) n = c :: t /\ (c =? 45) = false /\ (c =? 78) = false.
+Proof.
+  destruct (digits_head_range f n) as [c [t [H [H1 H2]]]]. exists c, t. split; [exact H|].
+  split; apply N.eqb_neq; lia.
+Qed.
+
+Theorem int_fmt_roundtrip : forall z, parse_int (fmt_int z) = Some z.
+Proof.
+  intros [|p|p]; [reflexivity| |].
+  - unfold fmt_int, parse_int. pose proof (fmt_nat_parse (Npos p)) as HP. unfold fmt_nat in *.
+    destruct (digits_head (N.to_nat (N.log2 (N.pos p))) (N.pos p)) as [c [t [HD [Hc _]]]].
+    rewrite HD in *. rewrite Hc. unfold parse_nat. rewrite HP. reflexivity.
+  - unfold fmt_int, parse_int. rewrite N.eqb_refl.
+    pose proof (fmt_nat_parse (Npos p)) as HP. unfold fmt_nat in *.
+    destruct (digits_head (N.to_nat (N.log2 (N.pos p))) (N.pos p)) as [c [t [HD [Hc _]]]].
+    unfold parse_nat. rewrite HD in *. rewrite HP. reflexivity.
+Qed.
+
+(* temporal values are put between quotes without escaping: safe because the formatted text has
+   neither quotes nor backslashes *)
+Lemma sql_scan_plain s : Forall (fun c => c <> 39 /\ c <> 92) s -> sql_scan (s ++ [39]) = Some (s, []).
+Proof.
+  induction 1 as [|c s [H1 H2] HF IH]; [reflexivity|].
+  cbn [app sql_scan]. destruct (c =? 92) eqn:E1; [apply N.eqb_eq in E1; congruence|].
+  destruct (c =? 39) eqn:E2; [apply N.eqb_eq in E2; congruence|]. rewrite IH. reflexivity.
+Qed.
+
+Definition val_ok (v : sqlval) : Prop :=
+  match v with
+  | VBin s => Forall (fun b => b < 256) s
+  | VTemporal s => Forall (fun c => c <> 39 /\ c <> 92) s
+  | VBit _ => False                       (* the BIT class is excluded: refuted below *)
+  | _ => True
+  end.
+
+Lemma not_null_text t : (match t with c :: _ => negb (c =? 78) | [] => true end) = true -> beq_bytes t s_null = false.
+Proof.
+  destruct t as [|c t]; [reflexivity|]. intros H. unfold s_null. cbn [beq_bytes].
+  apply negb_true_iff in H. rewrite H. reflexivity.
+Qed.
+
+(* Full statement (refuted for BIT): forall v, parse_val v (fmt_val v) = Some v. *)
+Theorem value_fmt_roundtrip_partial : forall v, val_ok v -> parse_val v (fmt_val v) = Some v.
+Proof.
+  intros v HV. destruct v as [|z|s|s|s|s]; cbn [val_ok] in HV; try contradiction.
+  - reflexivity.
+  - unfold parse_val, fmt_val.
+    assert (HN : beq_bytes (fmt_int z) s_null = false).
+    { destruct z as [|p|p]; [reflexivity| |reflexivity].
+      unfold fmt_int, fmt_nat. destruct (digits_head (N.to_nat (N.log2 (N.pos p))) (N.pos p)) as [c [t [-> [_ Hc]]]].
+      unfold s_null. cbn [beq_bytes]. rewrite Hc. reflexivity. }
+    rewrite HN, int_fmt_roundtrip. reflexivity.
+  - unfold parse_val, fmt_val. change (beq_bytes (sql_quote s) s_null) with false. cbv iota.
+    rewrite sql_string_roundtrip. reflexivity.
+  - unfold parse_val, fmt_val. change (beq_bytes (hex_encode s) s_null) with false. cbv iota.
+    rewrite (hex_roundtrip s HV). reflexivity.
+  - unfold parse_val, fmt_val. change (beq_bytes (39 :: s ++ [39]) s_null) with false. cbv iota.
+    unfold sql_unquote. rewrite N.eqb_refl. rewrite (sql_scan_plain s HV). reflexivity.
+Qed.
+
+(* the BIT class: the raw value byte is not a literal (import fails), or it is a digit and denotes another value *)
+Theorem value_fmt_roundtrip_refuted_bit :
+  parse_val (VBit [170]) (fmt_val (VBit [170])) = None
+  /\ parse_val (VBit [49]) (fmt_val (VBit [49])) = Some (VBit [1]).
+Proof. split; reflexivity. Qed.
+
+(* ------------------------------------------------------------------ *)
+(* 7. The oracle holds on the model's own observation of every string. *)
+Theorem oracle_on_model_str : forall s, Forall (fun b => b < 256) s ->
+  oracle (CStr s, OStr (sql_quote s) (hex_encode s) true s) = true.
+Proof.
+  intros s HF. cbn [oracle]. rewrite beq_bytes_refl. rewrite (hex_roundtrip s HF), beq_bytes_refl. reflexivity.
+Qed.
+Theorem model_agrees_on_model_str : forall s,
+  model_agrees (CStr s, OStr (sql_quote s) (hex_encode s) true s) = true.
+Proof.
+  intros s. cbn [model_agrees]. rewrite !beq_bytes_refl, sql_string_roundtrip, beq_bytes_refl. reflexivity.
+Qed.
